@@ -8,7 +8,7 @@ from ..callgraph import CallGraph
 from ..effects import noncanonical_sources, roots_of, writes_in
 from ..model import AnalysisError, const_value, dotted, kwarg, norm_text, walk_no_nested
 from ..report import Context
-from .common import calls_in, callee, enclosing_ifs, following_guards, is_none, method_calls
+from .common import calls_in, callee, enclosing_ifs, expand_locals, following_guards, is_none, method_calls
 
 BASE = 'emsarray.conventions._base.Convention'
 SPEC = 'emsarray.conventions._base.Specificity'
@@ -108,7 +108,8 @@ def run(ctx: Context) -> None:
             out = []
             for r, v in rv:
                 if isinstance(v, int):
-                    out.append((r, [(pol, norm_text(t)) for pol, t in early_none_tests(ctx, fi, r)]))
+                    fl_ = ctx.flow(fi)
+                    out.append((r, [(pol, norm_text(expand_locals(fl_, t))) for pol, t in early_none_tests(ctx, fi, r)]))
             return out
 
         ug = ctx.func('emsarray.conventions.ugrid.UGrid.check_dataset')
@@ -146,8 +147,8 @@ def run(ctx: Context) -> None:
         for q, n in (('emsarray.conventions.grid.CFGrid1D', 1), ('emsarray.conventions.grid.CFGrid2D', 2)):
             fi = ctx.func(q + '.check_dataset')
             for r, tests in tests_text(fi):
-                want = f"len(latitude.dims) != {n} or len(longitude.dims) != {n}"
-                ok = any(pol == 'unless' and t == want for pol, t in tests)
+                pat = re.compile(rf"len\((?:[\w.()]*\.)?latitude\.dims\) != {n} or len\((?:[\w.()]*\.)?longitude\.dims\) != {n}$")
+                ok = any(pol == 'unless' and pat.match(t) for pol, t in tests)
                 ctx.check('R11.1', ok, f"CF {n}-D grid matches only {n}-dimensional latitude and longitude", fi, r,
                           construct=f"tests before `{norm_text(r)}`: {[t for _, t in tests]}")
 
@@ -155,33 +156,58 @@ def run(ctx: Context) -> None:
     with ctx.section('R11.2'):
         mc = ctx.func(f"{REG}.ConventionRegistry.match_conventions")
         flow = ctx.flow(mc)
+        CONVS = ('attr', ('param', 'self'), 'conventions')
+        # the match list: (convention, convention.check_dataset(dataset)) for every convention in order, kept iff not None.
+        # Two spellings: an accumulator loop, or one comprehension whose filter binds the result (`:=`).
         loops = [n for n in walk_no_nested(mc.node) if isinstance(n, ast.For)]
-        ok_loop = len(loops) == 1 and flow.canon(loops[0].iter) == ('attr', ('param', 'self'), 'conventions')
-        ctx.check('R11.2', ok_loop, "conventions are tried in the order of self.conventions", mc, loops[0] if loops else mc.node)
-        appends = [c for c in method_calls(mc, 'append')]
-        ok_app = False
-        if len(appends) == 1 and ok_loop:
-            a = appends[0]
-            g = enclosing_ifs(mc, a)
-            item = a.args[0] if a.args else None
-            cd = [c for c in method_calls(mc, 'check_dataset')]
-            ok_app = (len(cd) == 1 and isinstance(item, ast.Tuple) and len(item.elts) == 2
-                      and isinstance(item.elts[0], ast.Name) and isinstance(loops[0].target, ast.Name) and item.elts[0].id == loops[0].target.id
-                      and flow.resolve(item.elts[1]) is cd[0]
-                      and isinstance(cd[0].func.value, ast.Name) and cd[0].func.value.id == loops[0].target.id
-                      and len(cd[0].args) == 1 and flow.canon(cd[0].args[0]) == ('param', mc.params[1])
-                      and any(inb and isinstance(st.test, ast.Compare) and isinstance(st.test.ops[0], ast.IsNot) and is_none(st.test.comparators[0])
-                              and flow.resolve(st.test.left) is cd[0] for st, inb in g))
-        ctx.check('R11.2', ok_app, "(convention, check_dataset(dataset)) is recorded exactly when the result is not None", mc,
-                  appends[0] if appends else mc.node)
+        cd = [c for c in method_calls(mc, 'check_dataset')]
+        ok_loop = ok_app = False
+        matches_c = None
+        site = mc.node
+        if len(loops) == 1 and len(cd) == 1:
+            ok_loop = flow.canon(loops[0].iter) == CONVS
+            site = loops[0]
+            appends = [c for c in method_calls(mc, 'append')]
+            if len(appends) == 1 and ok_loop:
+                a = appends[0]
+                g = enclosing_ifs(mc, a)
+                item = a.args[0] if a.args else None
+                ok_app = (isinstance(item, ast.Tuple) and len(item.elts) == 2
+                          and isinstance(item.elts[0], ast.Name) and isinstance(loops[0].target, ast.Name) and item.elts[0].id == loops[0].target.id
+                          and flow.resolve(item.elts[1]) is cd[0]
+                          and isinstance(cd[0].func.value, ast.Name) and cd[0].func.value.id == loops[0].target.id
+                          and len(cd[0].args) == 1 and flow.canon(cd[0].args[0]) == ('param', mc.params[1])
+                          and any(inb and isinstance(st.test, ast.Compare) and isinstance(st.test.ops[0], ast.IsNot) and is_none(st.test.comparators[0])
+                                  and flow.resolve(st.test.left) is cd[0] for st, inb in g)
+                          and not [x for x in ast.walk(loops[0]) if isinstance(x, (ast.Break, ast.Continue, ast.Return))])
+                matches_c = flow.canon(a.func.value)
+                site = a
+        else:
+            comps = [n for n in ast.walk(mc.node) if isinstance(n, ast.ListComp)]
+            if len(comps) == 1 and len(cd) == 1 and len(comps[0].generators) == 1:
+                lc, gen = comps[0], comps[0].generators[0]
+                site = lc
+                ok_loop = flow.canon(gen.iter) == CONVS and isinstance(gen.target, ast.Name)
+                bound = None
+                if len(gen.ifs) == 1 and isinstance(gen.ifs[0], ast.Compare) and len(gen.ifs[0].ops) == 1 and isinstance(gen.ifs[0].ops[0], ast.IsNot) \
+                        and is_none(gen.ifs[0].comparators[0]) and isinstance(gen.ifs[0].left, ast.NamedExpr) and gen.ifs[0].left.value is cd[0]:
+                    bound = gen.ifs[0].left.target.id
+                ok_app = (ok_loop and bound is not None and isinstance(lc.elt, ast.Tuple) and len(lc.elt.elts) == 2
+                          and isinstance(lc.elt.elts[0], ast.Name) and lc.elt.elts[0].id == gen.target.id
+                          and isinstance(lc.elt.elts[1], ast.Name) and lc.elt.elts[1].id == bound
+                          and isinstance(cd[0].func.value, ast.Name) and cd[0].func.value.id == gen.target.id
+                          and len(cd[0].args) == 1 and flow.canon(cd[0].args[0]) == ('param', mc.params[1]))
+                matches_c = ('node', id(lc))
+        ctx.check('R11.2', ok_loop, "conventions are tried in the order of self.conventions", mc, site)
+        ctx.check('R11.2', ok_app, "(convention, check_dataset(dataset)) is recorded exactly when the result is not None", mc, site)
         rets = mc.returns()
         ok_sort = False
         detail = ''
         if len(rets) == 1:
             v = flow.resolve(rets[0].value)
             detail = norm_text(v)
-            if isinstance(v, ast.Call) and dotted(v.func) == 'sorted' and len(v.args) == 1 and appends \
-                    and flow.canon(v.args[0]) == flow.canon(appends[0].func.value):
+            if isinstance(v, ast.Call) and dotted(v.func) == 'sorted' and len(v.args) == 1 and matches_c is not None \
+                    and (flow.canon(v.args[0]) == matches_c or ('node', id(flow.resolve(v.args[0]))) == matches_c):
                 key = kwarg(v, 'key')
                 rev = kwarg(v, 'reverse')
                 key_idx = None
@@ -193,47 +219,66 @@ def run(ctx: Context) -> None:
                         body = body.operand
                     if isinstance(body, ast.Subscript) and isinstance(body.value, ast.Name) and body.value.id == key.args.args[0].arg:
                         key_idx = const_value(body.slice, None)
+                elif isinstance(key, ast.Call) and callee(ctx, mc, key) == 'operator.itemgetter' and len(key.args) == 1:
+                    key_idx = const_value(key.args[0], None)
                 rev_true = rev is not None and const_value(rev, None) is True
                 ok_sort = key_idx == 1 and (rev_true != negated)
         ctx.check('R11.2', ok_sort, "matches are returned by a stable sort on the specificity component, descending", mc,
                   rets[0] if rets else mc.node, construct=f"return {detail}")
         gc = ctx.func(f"{REG}.ConventionRegistry.guess_convention")
         flow = ctx.flow(gc)
+        from .common import guards as _guards, known_empty
         mcalls = [c for c in method_calls(gc, 'match_conventions')]
         ok_first = False
         ok_none = False
         for r in gc.returns():
             v = flow.resolve(r.value) if r.value is not None else None
-            if is_none(v):
-                ok_none = True
-            elif isinstance(v, ast.Subscript) and const_value(v.slice, None) == 0 and isinstance(v.value, ast.Subscript) \
+            first_of_first = False
+            if isinstance(v, ast.Subscript) and const_value(v.slice, None) == 0 and isinstance(v.value, ast.Subscript) \
                     and const_value(v.value.slice, None) == 0 and mcalls and flow.resolve(v.value.value) is mcalls[0]:
-                g = enclosing_ifs(gc, r)
-                ok_first = any(inb and flow.resolve(st.test) is mcalls[0] for st, inb in g) or \
-                    any(inb and norm_text(st.test) in ('matches', 'len(matches) > 0', 'len(matches)') for st, inb in g)
+                first_of_first = True
+            elif r.value is not None and mcalls:
+                cv_ = flow.canon(r.value)
+                # best, _ = matches[0]
+                if isinstance(cv_, tuple) and cv_[0] == 'unpack' and cv_[2] == (0,) and isinstance(cv_[1], tuple) and cv_[1][0] == 'sub' \
+                        and cv_[1][2] == ('const', '0') and cv_[1][1] == flow.canon(mcalls[0]):
+                    first_of_first = True
+            emp = known_empty(gc, r, flow, lambda e: mcalls and flow.resolve(e) is mcalls[0], truthiness=True)
+            if is_none(v):
+                ok_none = ok_none or emp is True or emp is None and not first_of_first
+                ok_none = ok_none and emp is not False
+            elif first_of_first:
+                ok_first = emp is False
         ctx.check('R11.2', ok_first and len(mcalls) == 1 and flow.canon(mcalls[0].args[0]) == ('param', gc.params[1]),
                   "the first (most specific, earliest registered) match of this dataset is chosen", gc, gc.node, construct='return matches[0][0] when matches')
         ctx.check('R11.2', ok_none, "no match yields None", gc, gc.node, construct='return None when no matches')
         cv = ctx.func(f"{REG}.ConventionRegistry.conventions")
         flow = ctx.flow(cv)
+        REGD, ENTRY = ('attr', ('param', 'self'), 'registered_conventions'), ('attr', ('param', 'self'), 'entry_point_conventions')
+        chains = [c for c in calls_in(cv) if callee(ctx, cv, c) == 'itertools.chain']
+        ok_chain = len(chains) == 1 and len(chains[0].args) == 2 and flow.canon(chains[0].args[0]) == REGD and flow.canon(chains[0].args[1]) == ENTRY
+        ctx.check('R11.2', ok_chain, "manually registered conventions come before entry point conventions", cv, chains[0] if chains else cv.node)
         loops = [n for n in walk_no_nested(cv.node) if isinstance(n, ast.For)]
-        ok_chain = False
-        if len(loops) == 1:
-            it = flow.resolve(loops[0].iter)
-            if isinstance(it, ast.Call) and callee(ctx, cv, it) == 'itertools.chain' and len(it.args) == 2:
-                ok_chain = (flow.canon(it.args[0]) == ('attr', ('param', 'self'), 'registered_conventions')
-                            and flow.canon(it.args[1]) == ('attr', ('param', 'self'), 'entry_point_conventions'))
-        ctx.check('R11.2', ok_chain, "manually registered conventions come before entry point conventions", cv, loops[0] if loops else cv.node)
         appends = [c for c in method_calls(cv, 'append')]
         ok_dd = False
-        if len(appends) == 1 and loops:
+        dd_site = cv.node
+        if len(appends) == 1 and len(loops) == 1 and chains:
             g = enclosing_ifs(cv, appends[0])
-            ok_dd = (any(inb and isinstance(st.test, ast.Compare) and isinstance(st.test.ops[0], ast.NotIn) for st, inb in g)
+            dd_site = appends[0]
+            ok_dd = (flow.resolve(loops[0].iter) is chains[0]
+                     and any(inb and isinstance(st.test, ast.Compare) and isinstance(st.test.ops[0], ast.NotIn) for st, inb in g)
                      and isinstance(appends[0].args[0], ast.Name) and isinstance(loops[0].target, ast.Name)
                      and appends[0].args[0].id == loops[0].target.id
                      and all(flow.canon(r.value) == flow.canon(appends[0].func.value) for r in cv.returns()))
-        ctx.check('R11.2', ok_dd, "duplicates are dropped keeping the first occurrence; the list is returned in that order", cv,
-                  appends[0] if appends else cv.node)
+        elif chains and not loops:
+            # list(dict.fromkeys(chain(...))): first occurrence of every key, in order
+            for r in cv.returns():
+                v = flow.resolve(r.value)
+                dd_site = r
+                ok_dd = (isinstance(v, ast.Call) and isinstance(v.func, ast.Name) and v.func.id in ('list', 'tuple') and len(v.args) == 1
+                         and isinstance(flow.resolve(v.args[0]), ast.Call) and dotted(flow.resolve(v.args[0]).func) == 'dict.fromkeys'
+                         and len(flow.resolve(v.args[0]).args) == 1 and flow.resolve(flow.resolve(v.args[0]).args[0]) is chains[0])
+        ctx.check('R11.2', ok_dd, "duplicates are dropped keeping the first occurrence; the list is returned in that order", cv, dd_site)
         ac = ctx.func(f"{REG}.ConventionRegistry.add_convention")
         flow = ctx.flow(ac)
         dels = [n for n in ast.walk(ac.node) if isinstance(n, ast.Delete) and any(norm_text(t) == 'self.conventions' for t in n.targets)]
